@@ -14,12 +14,12 @@ from vmon.monitors import c09_spies as S
 # kinds whose move_cursor_to_coords exists (directly or by delegation): clause 3 applies only when
 # the whole path root..leaf is made of these
 CURSOR_MOVERS = {"Pile", "Columns", "Filler", "Padding", "BoxAdapter", "GridFlow", "AttrMap", "LineBox"}
-LEAF_KINDS = {"spy", "Edit", "Icon", "Button", "CheckBox", "Empty"}
+LEAF_KINDS = {"spy", "Edit", "Icon", "Button", "CheckBox", "Empty", "same"}
 MAX_LEAVES = 40
 
 
 class Node:
-    __slots__ = ("kind", "w", "children", "role", "recipe", "parent", "sid", "glyph")
+    __slots__ = ("kind", "w", "children", "role", "recipe", "parent", "sid", "glyph", "target", "occurrences")
 
     def __init__(self, kind, w, recipe, children=(), role=None):
         self.kind = kind
@@ -30,8 +30,18 @@ class Node:
         self.parent = None
         self.sid = None
         self.glyph = None
+        self.target = None  # for kind "same": the sibling Node whose widget object this position holds too
+        self.occurrences = 1  # how many positions of the parent hold this node's widget object
         for c in self.children:
             c.parent = self
+
+    def multiplicity(self):
+        """how often the widget of this node is drawn: product of the occurrences of itself and of its ancestors"""
+        m, n = 1, self
+        while n is not None:
+            m *= n.occurrences
+            n = n.parent
+        return m
 
     def is_leaf(self):
         return self.kind in LEAF_KINDS
@@ -43,7 +53,8 @@ class Node:
 
     def leaves(self):
         # "Empty" (a Text("") that takes no room by design) draws nothing and is not a judged leaf
-        return [n for n in self.walk() if n.is_leaf() and n.kind != "Empty"]
+        # "same" is another occurrence of a sibling's widget OBJECT: its leaves are those of the sibling, counted once
+        return [n for n in self.walk() if n.is_leaf() and n.kind not in ("Empty", "same")]
 
     def path_kinds(self):
         """kinds of the ancestors, root first (excluding self)"""
@@ -137,10 +148,22 @@ class Builder:
         return self._leaf(r, S.SpyCheckBox(sid, g, self.log, r["len"], r.get("state", False)), sid, g)
 
     # ---- containers
+    def _children(self, recipes):
+        """build a list of sibling recipes; {"k": "same", "of": i} puts the widget OBJECT of sibling i at this position too"""
+        nodes = [None if cr["k"] == "same" else self.build(cr) for cr in recipes]
+        for i, cr in enumerate(recipes):
+            if cr["k"] == "same":
+                t = nodes[cr["of"]]
+                a = Node("same", t.w, cr)
+                a.target = t
+                t.occurrences += 1
+                nodes[i] = a
+        return nodes
+
     def _items(self, items):
         nodes, args = [], []
-        for opt, cr in items:
-            c = self.build(cr)
+        built = self._children([cr for _o, cr in items])
+        for (opt, _cr), c in zip(items, built):
             nodes.append(c)
             if opt[0] == "plain":
                 args.append(c.w)
@@ -170,7 +193,13 @@ class Builder:
             hdr = self.build(r["header"], "header")
             kids.append(hdr)
         if r.get("footer") is not None:
-            ftr = self.build(r["footer"], "footer")
+            if r["footer"]["k"] == "same" and hdr is not None:
+                ftr = Node("same", hdr.w, r["footer"])
+                ftr.target = hdr
+                ftr.role = "footer"
+                hdr.occurrences += 1
+            else:
+                ftr = self.build(r["footer"], "footer")
             kids.append(ftr)
         w = urwid.Frame(body.w, hdr.w if hdr else None, ftr.w if ftr else None, focus_part=r.get("fp", "body"))
         return Node("Frame", w, r, kids)
@@ -237,14 +266,14 @@ class Builder:
         return Node("AttrMap", w, r, [c])
 
     def b_GridFlow(self, r):
-        cells = [self.build(c) for c in r["cells"]]
+        cells = self._children(r["cells"])
         w = urwid.GridFlow([c.w for c in cells], r["cw"], r.get("hs", 0), r.get("vs", 0), _t(r.get("align", "left")))
         if r.get("focus") is not None and cells:
             w.focus_position = r["focus"]
         return Node("GridFlow", w, r, cells)
 
     def b_ListBox(self, r):
-        items = [self.build(c) for c in r["items"]]
+        items = self._children(r["items"])
         walker = (urwid.SimpleFocusListWalker if r.get("walker", "focus") == "focus" else urwid.SimpleListWalker)([c.w for c in items])
         w = urwid.ListBox(walker)
         if r.get("focus") is not None and items:
@@ -326,6 +355,9 @@ def depth_of(r) -> int:
 
 def kinds_of(r, out=None):
     out = set() if out is None else out
+    if r["k"] == "same":
+        out.add("shared-widget-object")
+        return out
     out.add(r["k"] if r["k"] != "spy" else "spy-" + r["mode"])
     if r["k"] == "spy":
         if r.get("frows"):
@@ -365,9 +397,25 @@ def _ceil_div(a, b):
     return -(-a // b)
 
 
+def _resolved(r):
+    """shallow copy of a container recipe with its {"k": "same"} children replaced by the sibling recipes they repeat"""
+    k = r["k"]
+    if k in ("Pile", "Columns") and any(c["k"] == "same" for _o, c in r["items"]):
+        sib = [c for _o, c in r["items"]]
+        return dict(r, items=[[o, sib[c["of"]] if c["k"] == "same" else c] for o, c in r["items"]])
+    if k == "GridFlow" and any(c["k"] == "same" for c in r["cells"]):
+        return dict(r, cells=[r["cells"][c["of"]] if c["k"] == "same" else c for c in r["cells"]])
+    if k == "ListBox" and any(c["k"] == "same" for c in r["items"]):
+        return dict(r, items=[r["items"][c["of"]] if c["k"] == "same" else c for c in r["items"]])
+    if k == "Frame" and (r.get("footer") or {}).get("k") == "same":
+        return dict(r, footer=r.get("header"))
+    return r
+
+
 def need(r):
     """rough (cols, rows) at which the tree has a chance to satisfy the fit precondition; the
     precondition itself is established by observation, this only steers size choice"""
+    r = _resolved(r)
     k = r["k"]
     if k == "spy":
         if r["mode"] == "flow":
@@ -694,7 +742,21 @@ class Gen:
                     items.append([["plain"], self.tree("box", d)])
         if mode == "box" and not any(o[0] in ("weight", "plain") for o, _c in items):
             items.append([["weight", 1], self.tree("box", d)])
+        self.share(items, mode)
         return {"k": "Pile", "items": items, "focus": rng.randrange(len(items)) if rng.random() < 0.7 else None}
+
+    def share(self, items, mode, p=0.12):
+        """with probability p put the widget OBJECT of one of the items at one or two further positions (same option)"""
+        rng = self.rng
+        cand = [i for i, (_o, c) in enumerate(items) if c["k"] not in ("Empty", "same")]
+        if not cand or rng.random() >= p:
+            return
+        t = rng.choice(cand)
+        for _ in range(rng.choice([1, 1, 2])):
+            items.append([list(items[t][0]), {"k": "same", "of": t}])
+            if rng.random() < 0.3 and mode != "fixed":
+                # and sometimes something else in between / after
+                items.append([["pack"] if mode != "box" else ["given", 1], self.leaf("flow" if mode != "box" else "box")])
 
     def g_Columns(self, mode, d):
         rng = self.rng
@@ -733,6 +795,8 @@ class Gen:
                 at = rng.randint(0, len(items))
                 items.insert(at, [rng.choice([["pack"], ["pack"], ["given", 0]]), {"k": "Empty"}])
                 box = [b + 1 if b >= at else b for b in box]
+        self.share(items, mode)
+        box = box + [i for i, (_o, c) in enumerate(items) if c["k"] == "same" and c["of"] in box]
         return {
             "k": "Columns",
             "items": items,
@@ -749,7 +813,10 @@ class Gen:
         if rng.random() < 0.6:
             r["header"] = self.tree("flow", d)
             parts.append("header")
-        if rng.random() < 0.6:
+        if r["header"] is not None and rng.random() < 0.12:
+            r["footer"] = {"k": "same", "of": "header"}  # Frame(header=w, footer=w): the same object twice
+            parts.append("footer")
+        elif rng.random() < 0.6:
             r["footer"] = self.tree("flow", d)
             parts.append("footer")
         r["fp"] = rng.choice(parts)
@@ -819,6 +886,11 @@ class Gen:
         n = rng.randint(1, 6)
         cells = [self.tree("flow", min(d, 1)) for _ in range(n)]
         cw = max([need(c)[0] for c in cells] + [rng.randint(1, 8)])
+        if rng.random() < 0.15:
+            t = rng.randrange(n)
+            for _ in range(rng.choice([1, 2])):
+                cells.append({"k": "same", "of": t})
+            n = len(cells)
         return {
             "k": "GridFlow",
             "cells": cells,
@@ -834,6 +906,11 @@ class Gen:
         rng = self.rng
         n = rng.randint(1, 5)
         items = [self.tree("flow", d) for _ in range(n)]
+        if rng.random() < 0.12:
+            t = rng.randrange(n)
+            for _ in range(rng.choice([1, 2])):
+                items.append({"k": "same", "of": t})
+            n = len(items)
         return {"k": "ListBox", "items": items, "focus": rng.randrange(n) if rng.random() < 0.6 else None, "walker": rng.choice(["focus", "simple"])}
 
     def g_Scrollable(self, mode, d):
